@@ -535,6 +535,32 @@ func (d *detemper) substSingle(next ast.Stmt, use *ast.Ident, e ast.Expr) bool {
 	found := false
 	effectBefore := false
 	underShortCircuit := false
+	// variables whose address the expression hands to a call (`f(&resp)`): what is evaluated before the use must not
+	// read them, or the substitution would move the call's writes behind those reads
+	filled := map[types.Object]bool{}
+	ast.Inspect(e, func(n ast.Node) bool {
+		if u, ok := n.(*ast.UnaryExpr); ok && u.Op == token.AND {
+			x := ast.Unparen(u.X)
+			for {
+				switch t := x.(type) {
+				case *ast.SelectorExpr:
+					x = ast.Unparen(t.X)
+					continue
+				case *ast.IndexExpr:
+					x = ast.Unparen(t.X)
+					continue
+				}
+				break
+			}
+			if id, ok := x.(*ast.Ident); ok {
+				if o := d.obj(id); o != nil {
+					filled[o] = true
+				}
+			}
+		}
+		return true
+	})
+	readsFilledBefore := false
 	for _, h := range header {
 		var stack []ast.Node
 		ast.Inspect(h, func(n ast.Node) bool {
@@ -561,6 +587,11 @@ func (d *detemper) substSingle(next ast.Stmt, use *ast.Ident, e ast.Expr) bool {
 				}
 			}
 			if !found {
+				if id, isID := n.(*ast.Ident); isID && len(filled) > 0 && id.End() <= use.Pos() {
+					if o := d.obj(id); o != nil && filled[o] {
+						readsFilledBefore = true
+					}
+				}
 				switch t := n.(type) {
 				case *ast.CallExpr:
 					if t.End() <= use.Pos() && !isPureCall(d.info, t) {
@@ -586,7 +617,7 @@ func (d *detemper) substSingle(next ast.Stmt, use *ast.Ident, e ast.Expr) bool {
 	if !found {
 		return false
 	}
-	if !pure && (effectBefore || underShortCircuit) {
+	if !pure && (effectBefore || underShortCircuit || readsFilledBefore) {
 		return false
 	}
 	if pure && effectBefore && !d.localOnly(e) {
